@@ -141,12 +141,24 @@ func RunScanLogic(fsys FileSystem, pkgLoader PackageLoader, target string, opts 
 		scannedDeps = deps
 	}
 
-	// Deterministic Sort
-	sort.Slice(allAlerts, func(i, j int) bool {
-		if allAlerts[i].MatchedFunction != allAlerts[j].MatchedFunction {
-			return allAlerts[i].MatchedFunction < allAlerts[j].MatchedFunction
+	// Deterministic Sort. The key must be total: alerts that tie on (function, signature name)
+	// (the same short function name in two packages, several signatures sharing a name) would
+	// otherwise keep the completion order of the per-file goroutines.
+	sort.SliceStable(allAlerts, func(i, j int) bool {
+		a, b := allAlerts[i], allAlerts[j]
+		if a.MatchedFunction != b.MatchedFunction {
+			return a.MatchedFunction < b.MatchedFunction
 		}
-		return allAlerts[i].SignatureName < allAlerts[j].SignatureName
+		if a.SignatureName != b.SignatureName {
+			return a.SignatureName < b.SignatureName
+		}
+		if a.SignatureID != b.SignatureID {
+			return a.SignatureID < b.SignatureID
+		}
+		if a.Confidence != b.Confidence {
+			return a.Confidence > b.Confidence
+		}
+		return fmt.Sprintf("%+v", a.MatchDetails) < fmt.Sprintf("%+v", b.MatchDetails)
 	})
 
 	summary := models.ScanSummary{TotalAlerts: len(allAlerts)}
